@@ -1,5 +1,6 @@
 import S2T.Drv.Util
 import S2T.Spec.HtmlDoc
+import S2T.Spec.HtmlBook
 import S2T.Gen.HtmlSkip
 namespace S2T.Drv.C17
 open Lean S2T.Drv S2T.HtmlSkip
@@ -148,10 +149,70 @@ def specOp (j : Json) : Except String Json := do
     ("visible", jStrs (visibleData doc)),
     ("hidden", jStrs (hiddenData doc))]
 
+/-- chapter : {"doc":[item…], "tail": null | ["unclosed",tag,attrs,[event…]]} -/
+def parseChapter (j : Json) : Except String Chapter := do
+  let a ← getArr j "doc"
+  let doc ← a.toList.mapM parseItem
+  match j.getObjVal? "tail" with
+  | .ok (Json.arr t) =>
+    match t[3]? with
+    | some junk => return { doc := doc, tail := .unclosed (← elemStr t 1) (← elemAttrs t 2) (← parseEvs junk) }
+    | none => throw "tail: junk expected"
+  | _ => return { doc := doc, tail := .complete }
+
+def jTreeDown (d : Tree.State) : List (String × Json) :=
+  [("tree", jNode (Tree.getTree d)),
+   ("stack", jStrs ((d.top :: d.rest).reverse.map (·.tag))),
+   ("last", match d.last with | some n => jNode n | none => Json.null)]
+
+def jEpubDown (d : Epub.State) : List (String × Json) :=
+  [("text_parts", jStrs d.textParts), ("in_block", Json.bool d.inBlock),
+   ("tables", Json.arr (d.tables.map jTable).toArray), ("current_table", jTable d.currentTable),
+   ("current_row", jStrs d.currentRow), ("current_cell", jStrs d.currentCell),
+   ("in_table", Json.bool d.inTable), ("in_cell", Json.bool d.inCell),
+   ("title", jStr d.title), ("in_title", Json.bool d.inTitle)]
+
+/-- op `c17.book`: {"m":"html"|"epub","chapters":[chapter…]} ↦ per document: the Spec's reading (events, SpecChapterOk,
+    visible / hidden strings) and the RIGHT-HAND SIDE of `C17.Life.C17_book`: the class-specific state fed with the
+    visible items before the unclosed tail, from a NEW parser — plus what the reader that keeps one parser would hold
+    (`Reuse.readBook`), so the harness can tell which of the two designs the real reader follows. -/
+def bookOp (j : Json) : Except String Json := do
+  let m ← getStr j "m"
+  let a ← getArr j "chapters"
+  let book ← a.toList.mapM parseChapter
+  let specs := book.map (fun c => Json.mkObj [
+      ("ok", Json.bool (SpecChapterOk c)),
+      ("ok_html", Json.bool (ChapterOk S2T.Gen.HtmlSkip.htmlTables c)),
+      ("ok_epub", Json.bool (ChapterOk S2T.Gen.HtmlSkip.epubTables c)),
+      ("events", Json.arr (c.events.map jEv).toArray),
+      ("n_doc_events", Json.num (JsonNumber.fromNat (events c.doc).length)),
+      ("visible", jStrs (visibleData c.doc)),
+      ("hidden", jStrs (hiddenData c.doc ++ c.tail.hiddenData))])
+  let evs := book.map Chapter.events
+  match m with
+  | "html" =>
+    let T := S2T.Gen.HtmlSkip.htmlTables
+    let D := Tree.down S2T.Gen.HtmlSkip.htmlVoid
+    let want := book.map (fun c => Json.mkObj (jTreeDown (D.feed Tree.initState (downEvents c.doc))))
+    let fresh := (readBook T D Tree.initState evs).map (fun s => Json.mkObj (jTreeDown s.down))
+    let reuse := (Reuse.readBook T D Tree.initState (init Tree.initState) evs).map (fun s => Json.mkObj (jTreeDown s.down))
+    return Json.mkObj [("spec", Json.arr specs.toArray), ("want", Json.arr want.toArray),
+                       ("fresh", Json.arr fresh.toArray), ("reuse", Json.arr reuse.toArray)]
+  | "epub" =>
+    let T := S2T.Gen.HtmlSkip.epubTables
+    let D := Epub.down S2T.Gen.HtmlSkip.epubBlock
+    let want := book.map (fun c => Json.mkObj (jEpubDown (D.feed Epub.initState (downEvents c.doc))))
+    let fresh := (readBook T D Epub.initState evs).map (fun s => Json.mkObj (jEpubDown s.down))
+    let reuse := (Reuse.readBook T D Epub.initState (init Epub.initState) evs).map (fun s => Json.mkObj (jEpubDown s.down))
+    return Json.mkObj [("spec", Json.arr specs.toArray), ("want", Json.arr want.toArray),
+                       ("fresh", Json.arr fresh.toArray), ("reuse", Json.arr reuse.toArray)]
+  | other => throw s!"unknown machine {other}"
+
 def handle (op : String) (j : Json) : Option (Except String Json) :=
   match op with
   | "c17.run" => some (runOp j)
   | "c17.spec" => some (specOp j)
+  | "c17.book" => some (bookOp j)
   | _ => none
 
 end S2T.Drv.C17
